@@ -33,6 +33,8 @@ LATTICE_TYPES = (1,)
 # ------------------------------------------------------------------------------------------------------------
 
 BOX = 3
+FACTOR = 1.2          # the property's own number: bonded = closer than 1.2 x (r1 + r2)
+KNOWN_CUT = 5.3       # the recorded finding C13|no-item|distance-beyond-cut is about exactly this cut-off
 TINY = 1e-6           # an image closer than this is the atom itself
 NEAR_ZERO = 0.05      # (TINY, NEAR_ZERO): domain excluded (the code's 0.01 coincidence limit lies inside)
 TOL = 1e-9
@@ -170,11 +172,11 @@ def box_cart(M):
     return [to_cart(M, (h, k, l)) for h in r for k in r for l in r]
 
 
-def min_excluding_self(d2s):
+def min_excluding_self(d2s, strict=True):
     """(smallest squared distance that is not the atom itself, is there an image in the excluded (TINY, NEAR_ZERO) range)"""
     m = min(d2s)
     k = d2s.index(m)
-    if BOX in (abs(k // (2 * BOX + 1) ** 2 - BOX), abs(k // (2 * BOX + 1) % (2 * BOX + 1) - BOX), abs(k % (2 * BOX + 1) - BOX)):
+    if strict and BOX in (abs(k // (2 * BOX + 1) ** 2 - BOX), abs(k // (2 * BOX + 1) % (2 * BOX + 1) - BOX), abs(k % (2 * BOX + 1) - BOX)):
         raise RuntimeError('C13 harness: the nearest image lies on the boundary of the translation box; coordinates too far from the origin cell')
     flag = False
     if m <= NEAR_ZERO ** 2:
@@ -184,7 +186,7 @@ def min_excluding_self(d2s):
     return m, flag
 
 
-def oracle(case, radius, consts):
+def oracle(case, radius):
     """everything the property says about the structure, from the case alone"""
     cell = case['cell']
     M = ortho_matrix(cell)
@@ -212,14 +214,14 @@ def oracle(case, radius, consts):
             h1, h2 = a1['el'] in HYDROGENS, a2['el'] in HYDROGENS
             p1, p2 = a1['part'], a2['part']
             allowed = not (p1 != 0 and p2 != 0 and p1 != p2) and (p1 == p2 if (h1 or h2) else True)
-            limit = consts['factor'] * (radius[a1['el']] + radius[a2['el']])
+            limit = FACTOR * (radius[a1['el']] + radius[a2['el']])
             flags = []
             if excluded:
                 flags.append('image-in-(0,0.05)')
             if d is None or d >= half - 1e-6:
                 flags.append('beyond-half-spacing')
             else:
-                if abs(d - consts['cut']) < 2e-3:
+                if abs(d - KNOWN_CUT) < 2e-3:
                     flags.append('near-cut')
                 if allowed and abs(d - limit) < 1e-3:
                     flags.append('near-bond-limit')
@@ -227,7 +229,7 @@ def oracle(case, radius, consts):
                 if per_op[0] is not None and others and min(others) < math.sqrt(per_op[0]) <= min(others) + 3e-4:
                     flags.append('identity-near-tie')
             pairs[(i, j)] = dict(dist=d, op=best[1] if best else None, allowed=allowed, limit=limit,
-                                 bonded=bool(d is not None and d < half and d <= consts['cut'] and allowed and d < limit),
+                                 bonded=bool(d is not None and d < half and d <= KNOWN_CUT and allowed and d < limit),
                                  rule_bonded=bool(d is not None and allowed and d < limit), flags=flags)
     # connected components of the rule's bond graph (union-find)
     parent = list(range(n))
@@ -343,7 +345,8 @@ def op_in_group(op, group):
 
 def lib_op_min(orc, op, x1, x2):
     R = tuple(tuple(op[3 * i + k] for i in range(3)) for k in range(3))
-    m, _ = min_excluding_self(image_dists(orc['M'], orc['T'], R, op[9:12], x1, x2))
+    # the translation part modulo 1 (a lattice translation does not change the minimum over all t)
+    m, _ = min_excluding_self(image_dists(orc['M'], orc['T'], R, [t % 1 for t in op[9:12]], x1, x2), strict=False)
     return None if m is None else math.sqrt(m)
 
 
@@ -357,23 +360,23 @@ def constants(ctx):
 
 
 def evaluate(ctx, cases, stream=None):
-    consts = constants(ctx)
+    ctx.extra['extracted_constants'] = {k: v for k, v in constants(ctx).items()}
     radius = lib_constants()
     ctx.stream('sdm')
     ctx.stream('molindex')
     impls, orcs, reqs = [], [], []
     for case in cases:
         obs = observe_impl(case)
-        orc = oracle(case, radius, consts)
+        orc = oracle(case, radius)
         impls.append(obs)
         orcs.append(orc)
         reqs.append(request(case, obs.get('ops', []), orc['group']))
     answers = ctx.driver.batch(reqs)
     for case, obs, orc, ans in zip(cases, impls, orcs, answers):
-        judge(ctx, case, obs, orc, ans, consts)
+        judge(ctx, case, obs, orc, ans)
 
 
-def judge(ctx, case, obs, orc, ans, consts):
+def judge(ctx, case, obs, orc, ans):
     atoms = case['atoms']
     n = len(atoms)
     setting = case.get('setting', '?')
@@ -433,7 +436,7 @@ def judge(ctx, case, obs, orc, ans, consts):
             continue
         ncompared += 1
         d = p['dist']
-        if d > consts['cut']:
+        if d > KNOWN_CUT:
             # inside the domain of the statement (below half the smallest spacing) but beyond the 5.3 A cut
             if it is None:
                 ctx.fail('C13|no-item|distance-beyond-cut', f'{where}: true shortest distance {d:.4f} (< half spacing {orc["half"]:.3f}) has no SDMItem', pl)
@@ -614,8 +617,7 @@ def run(ctx):
                        'within 2e-3 of the 5.3 cut, within 1e-3 of the bond limit, identity contact within 3e-4 above another operator\'s',
                        f'lattice types generated: {LATTICE_TYPES} (centred settings wait for C11)']
     radius = lib_constants()
-    consts = constants(ctx)
-    n = ctx.budget(70, 1500)
+    n = ctx.budget(300, 5000)
     cases = []
     settings = [s for s in SETTINGS if abs(s[2]) in LATTICE_TYPES]
     for k in range(n):
@@ -624,7 +626,7 @@ def run(ctx):
         best = None
         for _ in range(4):
             c = make_case(ctx.rng, radius, st)
-            orc = oracle(c, radius, consts)
+            orc = oracle(c, radius)
             bad = sum(1 for p in orc['pairs'].values() if set(p['flags']) & {'near-cut', 'near-bond-limit', 'identity-near-tie', 'image-in-(0,0.05)'})
             if best is None or bad < best[0]:
                 best = (bad, c)
